@@ -35,6 +35,9 @@ checks = {
  "C10": dict(level="exploration", ref="DESIGN.md 3 C10, 2.6",
    text="Outside goroutines hammer the documented-concurrent API while supervised trees spawn, fail, restart and die; most runs execute in a -race build in which every scheduler hand-off is hidden from ThreadSanitizer (RaceDisable + //go:norace runtime), so two accesses to vivid state that any explored schedule executes without real synchronisation between them are reported deterministically, not by lucky timing; the plain build checks for panics and tree consistency at quiescence through an accessor. A self-test (vcheck SELF / SELFNEG) shows ordered chains are not reported and unordered accesses are.",
    technique="deterministic simulation + Go race detector with the simulator made invisible (race oracle), tree-consistency oracle at quiescence"),
+ "C11": dict(level="exploration", ref="DESIGN.md 3 C11",
+   text="Real systems with real remoting code talk over an in-memory network whose read chunking (everything available / one byte / uniform / frame-aligned / mixed) and latency are drawn per run, i.e. the simulator - not kernel timing - decides how the TCP byte stream is split into reads; bursts, sizes, directions, Tell/Ask/user-codec flows and idle periods are drawn; a sequence-and-checksum oracle per flow.",
+   technique="deterministic simulation: in-memory transport with seeded read chunking and latency under the seeded scheduler, sequence oracle"),
  "C19": dict(level="exploration", ref="DESIGN.md 3 C19",
    text="Concurrent Subscribe/Unsubscribe/UnsubscribeAll/Publish histories with subscriber kills and restarts, stamped with the simulator's global event sequence number and checked for linearizability against a set model with porcupine; plus duplicate, order, post-termination and stale-table-entry oracles.",
    technique="deterministic simulation: seeded scheduler, recorded history checked with porcupine against a sequential model"),
